@@ -213,3 +213,23 @@ Proof.
       assert (Hy' : In y ([x] ++ rest)) by (eapply Permutation_in; [symmetry; exact P|exact Hy]).
       destruct Hy' as [<-|Hy']; [lia|]. apply (F x y); [left; reflexivity|exact Hy'].
 Qed.
+
+(* Re-entrancy: a callback may itself search the same tree (another query, another script) and
+   let its answers depend on what it found.  In the model a search is a function of (tree, query,
+   script) and the tree is immutable, so such a callback is just another callback: the inner
+   search meets its specification, and so does the outer one, whatever the interleaving. *)
+Lemma nested_searches_spec_lemma pop t q q2 cb2
+      (answer : option (list item * result) -> list item * result -> nat -> Z -> action) :
+  heap_spec pop -> tree_inv t = true ->
+  let inner_p := priority_search pop q2 cb2 t in
+  let inner_r := range_search q2 cb2 t in
+  let cb := fun k id => answer inner_p inner_r k id in
+  (exists v ret, inner_p = Some (v, ret) /\ prio_ok (tree_leaves t) q2 cb2 v ret = true) /\
+  range_ok (tree_leaves t) q2 cb2 (fst inner_r) (snd inner_r) = true /\
+  (exists v ret, priority_search pop q cb t = Some (v, ret) /\ prio_ok (tree_leaves t) q cb v ret = true) /\
+  range_ok (tree_leaves t) q cb (fst (range_search q cb t)) (snd (range_search q cb t)) = true.
+Proof.
+  intros Hp Ht. cbv zeta. split; [apply priority_search_spec_lemma; assumption|].
+  split; [apply range_search_spec_lemma; assumption|].
+  split; [apply priority_search_spec_lemma; assumption|apply range_search_spec_lemma; assumption].
+Qed.
